@@ -125,7 +125,7 @@ PROPS = {
                 dict(test="TestC11Chain", quick=(8, 25), thorough=(16, 1500), timeout=dict(quick=900, thorough=3300)),
                 dict(test="TestC11Tunnel", quick=(4, 30), thorough=(8, 1500), timeout=dict(quick=900, thorough=3300))],
         rule="Encode: originators (direct/tunnel; empty, delimiter-like, long fields), times, signing ids and contents of every kind (oracle result "
-             "proto/full ABI/partial ABI, feeds prices fixed-point/tick ABI, tunnel packet, transition, text) run through the real handlers, plus a "
+             "proto/full ABI/partial ABI, feeds prices fixed-point/tick ABI, tunnel packet, transition, text incl. texts that start with a route selector and kind tag or are themselves an encoded body, i.e. start with one to three kind tags) run through the real handlers, plus a "
              "second request differing in exactly one field; non-trivial = oracle payload with non-empty result or feeds/tunnel payload with >=2 "
              "prices. Tick: prices at floor/ceil of every sampled tick boundary +-1, fixed values and log-uniform values; non-trivial = p within one "
              "price unit of a boundary. Thorough adds EVERY tick of the supported range with the four boundary prices. Chain: TSS history engine with user and governance-executed (sender = module authority) MsgRequestSignature over internal content kinds; non-trivial = >=2 signed messages parsed back and an oracle result or an internal-kind attempt. Tunnel: the C08 tunnel histories (TSS-route tunnels with fixed-point and tick encoders, delisted / not-ready signals, deviation and interval packets); an optional second ACTIVE group with a governance-forced transition so that packets inside the WAITING_EXECUTION window are signed by the current AND the incoming group; the signed bytes of every TSS packet signing (both groups) are decoded with the reference decoders and compared with the stored packet (originator, time, own signing id, sequence, every price entry, tick values against the 384-bit reference, identical content for both groups); non-trivial = a decoded packet carrying a non-AVAILABLE price entry; distinct = hash of case JSON",
@@ -174,19 +174,19 @@ PROPS = {
                 dict(test="TestC15Chain", pkg="c15", quick=(16, 14), thorough=(16, 1200), timeout=dict(quick=900, thorough=3300))],
         rule="Pure: CheckMissReport inputs with each of the five clocks (grace after activation, grace after feed-list update, price age, and the two "
              "block-height fallbacks) placed at -1/0/+1 of its boundary; non-trivial = tightest clock within one unit of its boundary. Chain: "
-             "timelines on the real app (3-5 validators, expiration 1-5 blocks, penalty 0-600 s, grace 1-60 s, dt in {0,1,3,30,100,1000} s; "
+             "timelines on the real app (3-5 validators, expiration 1-5 blocks, penalty 0-600 s (1 in 6 with a sub-second part), grace 1-60 s, dt in {0,1,3,30,100,1000} s plus, in 2 of 5 blocks, 1-999 ms, so block times carry a sub-second part as CometBFT's do (the feeds clocks are modelled on whole unix seconds as the module reads them, activation/penalty/'active before the request' on milliseconds; re-activations aimed at penalty end -1 s/0/+1 s plus the sub-second part, so some land less than a second early); "
              "activate incl. too early, request, report/no report, submit prices/skip); non-trivial = a deactivation decision within one unit of "
              "a boundary; distinct = hash of case JSON",
         explanation="one-directional, as stated: IsActive flips to false only if the reference predicate (written from the statement) says a genuine "
                     "miss happened in that block; MsgActivate succeeds only for an inactive validator whose penalty elapsed; a diligent validator "
                     "is never deactivated; nobody is active without an explicit activation. Converses are counted only.",
         assumptions=["price age pinned strict (ts + interval < now is a miss), 'active before the request' strict; exact end of grace/penalty accepts both outcomes",
-                     "whole-second block times; validators always bonded"],
+                     "validators always bonded"],
         nt_floor=0.2,
     ),
     "C16": dict(
         stages=[dict(test="TestC16", pkg="c16", quick=(16, 18), thorough=(16, 2000), timeout=dict(quick=900, thorough=3400))],
-        rule="case = 2-4 accounts, 2-3 rate-1 validators (in half of the cases the smallest one starts Unbonded outside the active set and may swap places with another one), genesis export/import round trips, genesis AllowedDenoms in {[uband],[uband,uatom],[],[uatom]}, and 20-60 late-bound ops "
+        rule="case = 2-4 accounts, 2-3 rate-1 validators (in half of the cases the smallest one starts Unbonded outside the active set and may swap places with another one), genesis export/import round trips, genesis AllowedDenoms in {[uband],[uband,uatom],[],[uatom]} (governance may later set any of these or [uband,uband], a list naming a denom twice, which must either be refused or count the denom once), and 20-60 late-bound ops "
              "(stake/unstake multi-denom, delegate/undelegate/redelegate/full removal, lock updates from vaults feeds (real MsgVote) / feedsx / tunnel / a "
              "(keeper level), vault deactivation, allowed-denom change through gov, re-locks relative to the vault's old lock after such a change: old-1/old/old+1/mid/power+1) with amounts at lock-1/lock/lock+1, 0, 2^63, 2^64-1; non-trivial = "
              "an account with >=2 active vaults of different locks AND a withdrawal rejected while leaving exactly maxLock-1; distinct = hash of case JSON",
@@ -200,7 +200,7 @@ PROPS = {
         stages=[dict(test="TestC17", pkg="c17", quick=(16, 25), thorough=(16, 2500), timeout=dict(quick=900, thorough=3300))],
         rule="case = tunnel params (multi-denom MinDeposit, base fee), 3 accounts, 20-60 late-bound ops (create/deposit/withdraw/activate/deactivate/trigger/fund/genesis export-import round trip/MsgUpdateSignalsAndInterval by creator or stranger on active and inactive tunnels with in-range, boundary and just-out-of-range configs/end block) on 1-3 tunnels with amounts placed around the minimum, own deposit and balance; non-trivial = "
              ">=2 simultaneous depositors on one tunnel AND >=1 successful withdrawal crossing the minimum; distinct = hash of case JSON",
-        explanation="reference ledger advanced only by successful txs; after every block: TotalDeposit == sum of deposit records == ledger, "
+        explanation="reference ledger advanced only by successful txs; after every block: TotalDeposit == sum of deposit records == ledger == what the Deposits query of that tunnel lists, "
                     "module balance == deposits + recorded fees, exact balance deltas, no overdraw, activation only by creator with total >= min, "
                     "active => total >= min, IsActive <=> active index <=> processed at end block, rejected ops change nothing",
         assumptions=["no packet is ever sent successfully (no signing group / IBC channel), so TotalFees stays 0",
